@@ -88,10 +88,12 @@ func (l *limitListener) increment(ctx context.Context) (isClosed bool) {
 	defer l.counterCond.L.Unlock()
 
 	// Make sure to check both that the counter allows this connection and that
-	// the listener hasn't been closed.  Only log about waiting for an increment
-	// when such waiting actually took place.
+	// the listener hasn't been closed.  Check the latter first, since a
+	// successful increment for a closed listener would never be followed by a
+	// decrement.  Only log about waiting for an increment when such waiting
+	// actually took place.
 	waited := false
-	for !l.counter.increment() && !l.isClosed {
+	for !l.isClosed && !l.counter.increment() {
 		if !waited {
 			l.logger.DebugContext(ctx, "accept waiting")
 
